@@ -105,6 +105,92 @@ type DRun struct {
 	Checks   int
 	Subs     int
 	WallMs   int64
+	// script for the Lean disposal-protocol model (Am.DP) and what the implementation showed at each
+	// line, in the model's output format (`*` = not observed)
+	Lines []string
+	Obs   []string
+}
+
+// parker: a re-armable schedule point (one goroutine parked at a time).
+type parker struct {
+	mu      sync.Mutex
+	at      string
+	parked  chan struct{}
+	release chan struct{}
+	prev    chan struct{} // release channel of the point armed before
+}
+
+func (p *parker) arm(id string) {
+	p.mu.Lock()
+	p.at = id
+	p.prev = p.release
+	p.parked = make(chan struct{}, 1)
+	p.release = make(chan struct{})
+	p.mu.Unlock()
+}
+
+func (p *parker) hit(id string) {
+	p.mu.Lock()
+	if p.at == "" || p.at != id {
+		p.mu.Unlock()
+		return
+	}
+	p.at = ""
+	pk, rl := p.parked, p.release
+	p.mu.Unlock()
+	pk <- struct{}{}
+	select {
+	case <-rl:
+	case <-time.After(4 * time.Second):
+	}
+}
+
+func (p *parker) wait(d time.Duration) bool {
+	p.mu.Lock()
+	pk := p.parked
+	p.mu.Unlock()
+	if pk == nil {
+		return false
+	}
+	select {
+	case <-pk:
+		return true
+	case <-time.After(d):
+		return false
+	}
+}
+
+// letGoKeepArm releases the goroutine parked at the previous point; the point armed since stays armed.
+func (p *parker) letGoKeepArm() {
+	p.mu.Lock()
+	if p.prev != nil {
+		select {
+		case <-p.prev:
+		default:
+			close(p.prev)
+		}
+	}
+	p.mu.Unlock()
+}
+
+func (p *parker) letGo() {
+	p.mu.Lock()
+	if p.release != nil {
+		select {
+		case <-p.release:
+		default:
+			close(p.release)
+		}
+	}
+	if p.prev != nil {
+		select {
+		case <-p.prev:
+		default:
+			close(p.prev)
+		}
+	}
+	p.at = ""
+	p.mu.Unlock()
 }
 
 func countHandlerLoops() int {
@@ -199,7 +285,10 @@ func ExecDispose(c DCase) *DRun {
 	parked := make(chan struct{}, 1)
 	release := make(chan struct{})
 	var parkedOnce atomic.Bool
+	pk := &parker{}
+	defer pk.letGo()
 	registry.Store(m, func(id string) {
+		pk.hit(id)
 		if want := parkAt.Load().(string); want != "" && id == want && parkedOnce.CompareAndSwap(false, true) {
 			parked <- struct{}{}
 			<-release
@@ -525,6 +614,145 @@ func ExecDispose(c DCase) *DRun {
 		if d := time.Duration(evalTook.Load()); evalRet.Load() == 1 && d > time.Duration(evalMs)*time.Millisecond+400*time.Millisecond {
 			fail("an Eval that was pending when Dispose landed returned only after %v (eval timeout %dms)", d, evalMs)
 		}
+	case "unlock-window":
+		// a transition is running (its handler is busy) when Dispose lands from another goroutine; the
+		// disposer is parked at a stage (right after it let go of the queue lock, or after disposal has
+		// been flagged) while a third goroutine mutates the machine: whatever that call returns, its
+		// transition must not run next to the one that is still running. The scenario is a schedule of
+		// the Lean model Am.DP (callers 0 and 2, disposer 1): replayed there, observations compared
+		var inside, inTx, started atomic.Int32
+		var overlap atomic.Bool
+		m.BindTracer(&spanTracer{TracerNoOp: &am.TracerNoOp{Id: "verif-span"}, n: &inTx, over: &overlap, started: &started})
+		busy := make(chan struct{})
+		var busyOnce sync.Once
+		unbusy := func() { busyOnce.Do(func() { close(busy) }) }
+		defer unbusy()
+		entered := make(chan struct{}, 1)
+		track := func(block bool) am.HandlerFinal {
+			return func(e *am.Event) {
+				if inside.Add(1) > 1 {
+					overlap.Store(true)
+				}
+				defer inside.Add(-1)
+				if block {
+					select {
+					case entered <- struct{}{}:
+					default:
+					}
+					select {
+					case <-busy:
+					case <-time.After(2 * time.Second):
+					}
+				} else {
+					time.Sleep(5 * time.Millisecond)
+				}
+			}
+		}
+		if _, err := m.HandlersBindMaps(nil, map[string]am.HandlerFinal{
+			one(1) + "State": track(true),
+			one(2) + "State": track(false),
+		}, am.BindOpts{Id: "window"}); err != nil {
+			fail("bind: %v", err)
+			return run
+		}
+		for _, i := range []int{1, 2} {
+			if m.Is1(one(i)) {
+				m.Remove1(one(i), nil)
+			}
+		}
+		started.Store(0)
+		bi := func(b bool) int {
+			if b {
+				return 1
+			}
+			return 0
+		}
+		observe := func(line, pc string, q string) {
+			run.Lines = append(run.Lines, line)
+			run.Obs = append(run.Obs, fmt.Sprintf("pc=%s lock=%d disposing=%d disposed=%d q=%s started=%d running=%d body=%d", pc,
+				bi(am.VerifQueueProcessing(m)), bi(am.VerifDisposing(m)), bi(m.IsDisposed()), q, started.Load(), inTx.Load(), dh1.Load()))
+		}
+		model := c.Stage == "dd:unlocked" || c.Stage == "dd:disposing"
+		for _, l := range []string{"dp init 1", "dp spawn caller", "dp spawn dispose", "dp spawn caller"} {
+			run.Lines = append(run.Lines, l)
+		}
+		run.Obs = append(run.Obs, "ok", "thread=0", "thread=1", "thread=2")
+		aDone := make(chan struct{})
+		go func() { defer close(aDone); m.Add1(one(1), nil) }()
+		select {
+		case <-entered:
+		case <-time.After(time.Second):
+			fail("unlock-window: the busy handler never started")
+			run.Lines, run.Obs = nil, nil
+			return run
+		}
+		observe("dp run 0 running", "running", fmt.Sprint(m.QueueLen()))
+		if model {
+			pk.arm(c.Stage)
+		}
+		m.Dispose()
+		parkedNow := model && pk.wait(time.Second)
+		if model && !parkedNow {
+			// the schedule the script describes did not happen: monitors only
+			run.Lines, run.Obs = nil, nil
+		}
+		if parkedNow {
+			if c.Stage == "dd:unlocked" {
+				observe("dp run 1 enter", "enter", fmt.Sprint(m.QueueLen()))
+			} else {
+				observe("dp run 1 wait", "wait", fmt.Sprint(m.QueueLen()))
+			}
+		}
+		callerDone = make(chan struct{})
+		go func() {
+			defer close(callerDone)
+			if r := guarded(wait, func() { m.Add1(one(2), nil) }); r != "" {
+				fail("a mutation made while Dispose was at %s (a transition still running): %s", c.Stage, r)
+			}
+		}()
+		select {
+		case <-callerDone:
+		case <-time.After(300 * time.Millisecond):
+		}
+		time.Sleep(30 * time.Millisecond)
+		if overlap.Load() {
+			fail("two transitions of one machine ran at the same time: Dispose landed while a handler was running (disposer at %s) and a mutation from a third goroutine was executed next to it", c.Stage)
+		}
+		if parkedNow && run.Lines != nil {
+			observe("dp run 2 done", "done", fmt.Sprint(m.QueueLen()))
+		}
+		// the disposal gets flagged, then the running transition ends, then the disposal completes
+		if parkedNow && c.Stage == "dd:unlocked" {
+			pk.arm("dd:disposing")
+			pk.letGoKeepArm()
+			if pk.wait(time.Second) {
+				if run.Lines != nil {
+					observe("dp run 1 wait", "wait", "*")
+				}
+			} else {
+				run.Lines, run.Obs = nil, nil
+			}
+		}
+		unbusy()
+		select {
+		case <-aDone:
+		case <-time.After(2 * time.Second):
+			fail("the mutation whose handler was running when Dispose landed never returned")
+		}
+		if parkedNow && run.Lines != nil {
+			observe("dp run 0 done", "done", "*")
+		}
+		pk.letGo()
+		select {
+		case <-m.WhenDisposed():
+		case <-time.After(wait):
+		}
+		if overlap.Load() {
+			fail("two transitions of one machine ran at the same time: Dispose landed while a handler was running (disposer at %s) and a mutation from a third goroutine was executed next to it", c.Stage)
+		}
+		if parkedNow && run.Lines != nil && m.IsDisposed() {
+			observe("dp run 1 done", "done", "*")
+		}
 	case "mid-dispose":
 		// the disposer is parked at a stage of doDispose; other callers use the machine
 		parkAt.Store(c.Stage)
@@ -661,6 +889,23 @@ var subKinds = []string{"when", "whennot", "whentime", "whenticks", "whenargs", 
 var queueStages = []string{"pq:casOk", "pq:shifted", "pq:loopExit", "pq:released", "qm:appended", "pq:preOk"}
 var disposeStages = []string{"dd:disposing", "dd:disposed", "dd:subsDisposed", "dd:beforeCancel"}
 
+type spanTracer struct {
+	*am.TracerNoOp
+	n       *atomic.Int32
+	over    *atomic.Bool
+	started *atomic.Int32
+}
+
+func (t *spanTracer) TransitionInit(tx *am.Transition) {
+	if t.started != nil {
+		t.started.Add(1)
+	}
+	if t.n.Add(1) > 1 {
+		t.over.Store(true)
+	}
+}
+func (t *spanTracer) TransitionEnd(tx *am.Transition) { t.n.Add(-1) }
+
 type endTracer struct {
 	*am.TracerNoOp
 	f func(tx *am.Transition)
@@ -692,6 +937,9 @@ func GenDCase(r *rand.Rand, trigger string) DCase {
 		for k := 0; k < 2+r.Intn(3); k++ {
 			c.Subs = append(c.Subs, fmt.Sprintf("%s:%d", []string{"when", "whentick1", "whenquery1", "whentime1"}[r.Intn(4)], 1+r.Intn(2)))
 		}
+	case "unlock-window":
+		c.Handlers = false
+		c.Stage = []string{"dd:unlocked", "dd:unlocked", "dd:disposing", "none"}[r.Intn(4)]
 	case "eval-pending":
 		c.Handlers = r.Intn(2) == 0
 		c.Stage = fmt.Sprint([]int{60, 120, 180, 220, 260, 300, 340, 400, 500, 700, 1500, 3000}[r.Intn(12)])
@@ -700,11 +948,42 @@ func GenDCase(r *rand.Rand, trigger string) DCase {
 }
 
 var Triggers = []string{"idle-dispose", "idle-force", "idle-parent", "twice", "twice-after", "twice-conc", "dispose+force",
-	"parent+dispose", "in-neg", "in-final", "in-eval", "during-queue", "mid-dispose", "in-tracer-end", "eval-pending"}
+	"parent+dispose", "in-neg", "in-final", "in-eval", "during-queue", "mid-dispose", "in-tracer-end", "eval-pending", "unlock-window"}
 
 // RunDispose: the disposal schedule engine; corpus first, the fixed cases, then
 // every trigger `per` times.
+// ProtoScript: one executed scenario as a schedule of the Lean model Am.DP.
+type ProtoScript struct {
+	Case  DCase
+	Lines []string
+	Obs   []string
+}
+
+// Scripts collected by the last RunDispose.
+var Scripts []ProtoScript
+
+// MatchObs compares an observation with the model's line; `*` in the observation matches anything.
+func MatchObs(obs, model string) bool {
+	a, b := strings.Fields(obs), strings.Fields(model)
+	if len(a) != len(b) {
+		return false
+	}
+	for i := range a {
+		if a[i] == b[i] {
+			continue
+		}
+		k, v, ok := strings.Cut(a[i], "=")
+		k2, _, ok2 := strings.Cut(b[i], "=")
+		if ok && ok2 && k == k2 && v == "*" {
+			continue
+		}
+		return false
+	}
+	return true
+}
+
 func RunDispose(seed int64, per int, outDir, prop string, corpus []string) (cases, checks int, tags map[string]int, fails []FailOut) {
+	Scripts = nil
 	r := rand.New(rand.NewSource(seed))
 	tags = map[string]int{}
 	seen := map[string]bool{}
@@ -731,7 +1010,12 @@ func RunDispose(seed int64, per int, outDir, prop string, corpus []string) (case
 			Subs: []string{"when:1", "whenticks:0", "whennot:0", "statectx:0", "whenargs:2"}, Pre: []Op{{Kind: "add", States: []int{0}}}})
 	}
 	for _, tr := range Triggers {
-		for k := 0; k < per; k++ {
+		n := per
+		if tr == "unlock-window" {
+			// the schedules replayed in the Lean protocol model
+			n = per * 4
+		}
+		for k := 0; k < n; k++ {
 			all = append(all, GenDCase(r, tr))
 		}
 	}
@@ -740,6 +1024,9 @@ func RunDispose(seed int64, per int, outDir, prop string, corpus []string) (case
 		cases++
 		checks += run.Checks
 		tags[c.Tag]++
+		if len(run.Lines) > 4 && len(run.Lines) == len(run.Obs) {
+			Scripts = append(Scripts, ProtoScript{Case: c, Lines: run.Lines, Obs: run.Obs})
+		}
 		for _, f := range run.Failures {
 			key := DisposeFinding(c, f.Msg) + "|" + c.Trigger + "|" + msgKey(f.Msg)
 			if seen[key] {
